@@ -231,6 +231,11 @@ def isPrefixB : Bytes → Bytes → Bool
   | _ :: _, [] => false
   | a :: as, b :: bs => a == b && isPrefixB as bs
 
+/-- `if path[0] == '/' { path = path[1:] }` -/
+def stripSlash : Bytes → Bytes
+  | 47 :: rest => rest
+  | p => p
+
 /-- `PathToRID(path, query, prefix)`; the empty result stands for "no resource id" (404). -/
 def pathToRID (path query pref : Bytes) : Bytes :=
   if path.length == pref.length || !isPrefixB pref path then []
@@ -238,9 +243,7 @@ def pathToRID (path query pref : Bytes) : Bytes :=
     let p := path.drop pref.length
     if p.contains cDot then []
     else
-      let p := match p with
-        | 47 :: rest => rest
-        | _ => p
+      let p := stripSlash p
       match (splitOn cSlash p).mapM unescapeB with
       | none => []
       | some parts =>
@@ -254,9 +257,7 @@ def pathToRIDAction (path query pref : Bytes) : Bytes × Bytes :=
     let p := path.drop pref.length
     if p.contains cDot then ([], [])
     else
-      let p := match p with
-        | 47 :: rest => rest
-        | _ => p
+      let p := stripSlash p
       let raw := splitOn cSlash p
       if raw.length < 2 then ([], [])
       else match raw.mapM unescapeB with
@@ -264,5 +265,23 @@ def pathToRIDAction (path query pref : Bytes) : Bytes × Bytes :=
         | some parts =>
           let rid := joinWith cDot parts.dropLast
           ((if query.isEmpty then rid else rid ++ cQm :: query), parts.getLast?.getD [])
+
+end Resgate.Enc
+
+namespace Resgate.Enc
+open Resgate
+
+/-- `url.PathEscape` keeps these bytes (unreserved characters and `$&+=:@`). -/
+def unreservedB (b : Nat) : Bool :=
+  (48 ≤ b && b ≤ 57) || (65 ≤ b && b ≤ 90) || (97 ≤ b && b ≤ 122) ||
+  b == 45 || b == 95 || b == 46 || b == 126 || b == 36 || b == 38 || b == 43 || b == 61 || b == 58 || b == 64
+
+def hexU (n : Nat) : Nat := if n < 10 then 48 + n else 55 + n
+
+def escB (b : Nat) : Bytes := if unreservedB b then [b] else [37, hexU (b / 16), hexU (b % 16)]
+
+/-- `RIDToPath` on bytes: escape, then every dot becomes a slash. -/
+def ridToPathB (rid pref : Bytes) : Bytes :=
+  if rid.isEmpty then [] else pref ++ (rid.flatMap escB).map fun b => if b = cDot then cSlash else b
 
 end Resgate.Enc
